@@ -140,7 +140,14 @@ class World:
             if world.rh[0] > 0:
                 world.rh[0] -= 1
                 world.events.append(('handler-reconnect',))
-                world.conn.connect()          # an exception raised here replaces the handled one
+                no_successor = world.conn.__dict__.get('_slot_newnt') is None
+                try:
+                    world.conn.connect()          # an exception raised here replaces the handled one
+                except C.InvalidState:
+                    # the connection has ended with an error and nothing has been started since: the documented
+                    # reconnect-from-handler pattern must not be refused (judged in single-caller histories only)
+                    world.events.append(('handler-reconnect-refused', no_successor and world.sequential))
+                    raise
         class IConnection(C.Connection):
             # the two thread slots are shared state: make every access by a scheduled thread an atomic
             # action of its own, so the scheduler can interleave around them
@@ -356,6 +363,10 @@ def oracle(ctx, servers, rl, rh, progs, r, label):
         bad = 'every networking thread has terminated and no call is in progress, yet one more connect() -> %s ' \
               '(slots at rest: networking_thread set=%s, new_networking_thread set=%s)' % (r['probe'], r['nt'], r['newnt'])
         key_kind = 'not-reusable'
+    if not bad and any(e[0] == 'handler-reconnect-refused' and e[1] for e in r['events']):
+        bad = 'connect() from the exception handler of a connection that has just ended with an error was refused ' \
+              'with an invalid-state error although no other connection had been started'
+        key_kind = 'handler-reconnect-refused'
     dist = [e for e in r['events'] if e[0] == 'disturbed']
     if dist and not bad:
         bad = 'a refused %s (InvalidState) nevertheless performed socket operations on behalf of the caller: %r' % (
